@@ -51,6 +51,8 @@ type lifeWorld struct {
 	closed bool
 	done   bool
 	addrs  map[string]int // real TCP mode: client address -> client id
+	nAdded int            // connections handed to a goroutine (track.add)
+	nDone  int            // connection goroutines that finished their cleanup (conn.untracked)
 }
 
 func (lw *lifeWorld) log(e Ev) {
@@ -106,6 +108,15 @@ func (lw *lifeWorld) hook(point string, conn net.Conn, n int64) {
 		return // free running: no log access here (its mutex would order serve's start-up before everything else)
 	}
 	lw.log(Ev{"ev": "hook", "point": point, "conn": id, "n": int(n)})
+	if point == "track.add" || point == "conn.untracked" {
+		lw.mu.Lock()
+		if point == "track.add" {
+			lw.nAdded++
+		} else {
+			lw.nDone++
+		}
+		lw.mu.Unlock()
+	}
 	if !gated || point == "serve.start" {
 		return
 	}
@@ -531,7 +542,17 @@ func runLife(w *writer, c *lifeCase) {
 		}
 		time.Sleep(time.Millisecond)
 	}
-	// wait until the scenario has come to rest: no new event for a few milliseconds
+	// wait until every connection goroutine has finished its cleanup (a handler may still be sleeping) ...
+	for i := 0; i < 1500; i++ {
+		lw.mu.Lock()
+		fin := lw.nDone >= lw.nAdded
+		lw.mu.Unlock()
+		if fin {
+			break
+		}
+		time.Sleep(time.Millisecond)
+	}
+	// ... and until the scenario has come to rest: no new event for a few milliseconds
 	for i := 0; i < 60; i++ {
 		lw.mu.Lock()
 		s1 := lw.seq
